@@ -187,6 +187,12 @@ where
 }
 
 fn windower_all(rep: &mut Report, l: usize, b: usize, h: usize) {
+    if let Err(m) = vmon::catch(std::panic::AssertUnwindSafe(|| windower_all_inner(rep, l, b, h))) {
+        rep.violation("windower|panic", format!("L={} bin={} hop={}: panicked: {}", l, b, h, m), format!("kind=windower;w=any;fmt=any;ch=0;l={};b={};h={}", l, b, h));
+    }
+}
+
+fn windower_all_inner(rep: &mut Report, l: usize, b: usize, h: usize) {
     check_windower::<f64, Hann>(rep, l, b, h, 0);
     check_windower::<f64, Rectangle>(rep, l, b, h, 0);
     check_windower::<[f32; 2], Hann>(rep, l, b, h, 0);
@@ -218,7 +224,7 @@ fn main() {
     check_window_fns(&mut rep, cli.t(16, 20), cli.t(100_000, 2_000_000), cli.seed);
     rep.eval(EVALS.with(|c| c.replace(0)));
 
-    let nmax = cli.t(257usize, 4096usize);
+    let nmax = cli.t(257usize, 8192usize);
     let reps = vmon::par_for(cli.threads, (nmax - 1) as u64, 8, |_| Report::new("C20", "w"), |rep, i| {
         check_window_iter(rep, i as usize + 2);
         rep.nontrivial(vmon::hash_combine(0x77, i + 2));
@@ -230,7 +236,7 @@ fn main() {
     rep.exhaustive(format!("Window iterators hann/rectangle/new for every n in 2..={}", nmax));
 
     // every (L, bin, hop)
-    let lmax = cli.t(24usize, 40usize);
+    let lmax = cli.t(24usize, 64usize);
     let mut triples = Vec::new();
     for l in 0..=lmax {
         for b in 2..=l + 2 {
